@@ -57,6 +57,12 @@ def modifyFirst {α ε : Type} (p : α → Bool) (f : α → Except ε α) (nf :
       | .ok ys => .ok (x :: ys)
       | .error e => .error e
 
+/-- pairwise distinct (dict keys, sibling names) -/
+def distinctNames (names : List String) : Bool :=
+  match names with
+  | [] => true
+  | n :: rest => !rest.contains n && distinctNames rest
+
 /-- Apply `f` to the `n`-th element (no change when out of range). -/
 def modifyNth {α : Type} (f : α → α) : Nat → List α → List α
   | _, [] => []
@@ -296,6 +302,15 @@ def addTest (parent : Path) (tr : TestResult) (r : Report) : Except WriterErr Re
 def setStepEnd (t : Time) (s : Step) : Step := { s with endTime := some t }
 def addEntryToStep (e : Entry) (s : Step) : Step := { s with entries := s.entries ++ [e] }
 
+/-- `assert not step.end_time; step.add_log(log)` on the `idx`-th step of a result.  The `Step` object the writer
+    holds IS the node in the report, so its `end_time` is read from the report itself. -/
+def addEntryAt (idx : Nat) (e : Entry) (x : Result) : Except WriterErr Result :=
+  match x.steps[idx]? with
+  | none => .error .internal
+  | some s =>
+    if truthyTime s.endTime then .error .assertStepEnded
+    else .ok { x with steps := modifyNth (addEntryToStep e) idx x.steps }
+
 /-- `_add_step_log(log, event)` -/
 def addEntry (w : WriterState) (loc : Loc) (tid : Nat) (e : Entry) : Except WriterErr WriterState :=
   match checkLocation loc w.report with
@@ -304,13 +319,15 @@ def addEntry (w : WriterState) (loc : Loc) (tid : Nat) (e : Entry) : Except Writ
     match w.active.lookup tid with
     | none => .error .assertActiveStep
     | some ref =>
-      if truthyTime ref.endTime then .error .assertStepEnded
-      else match ref.target with
-        | none => .ok w          -- the log goes into a `Step` object that is no longer part of the report
-        | some (l, idx) =>
-          match modifyResult (fun x => .ok { x with steps := modifyNth (addEntryToStep e) idx x.steps }) l w.report with
-          | .ok r' => .ok { w with report := r' }
-          | .error _ => .error .internal
+      match ref.target with
+      | none =>
+        -- a `Step` object that is no longer part of the report: only its own `end_time` matters
+        if truthyTime ref.endTime then .error .assertStepEnded else .ok w
+      | some (l, idx) =>
+        match modifyResult (addEntryAt idx e) l w.report with
+        | .ok r' => .ok { w with report := r' }
+        | .error .assertStepEnded => .error .assertStepEnded
+        | .error _ => .error .internal
 
 def onResultStart (loc : Loc) (w : WriterState) (r' : Except WriterErr Report) : Except WriterErr WriterState :=
   match r' with
